@@ -1,3 +1,5 @@
+use std::convert::TryFrom;
+
 use ebml_iterable_specification::{EbmlSpecification, EbmlTag, PathPart};
 
 use crate::tag_iterator_util::EBMLSize;
@@ -38,48 +40,25 @@ pub fn is_ended_by<T: EbmlSpecification<T> + EbmlTag<T> + Clone>(current_id: u64
     )
 }
 
+///
+/// Returns whether or not the tag `tag_id` is allowed directly under the chain of open master tags `doc_path` (outermost first).
+///
+/// The declared path of the tag is read as a pattern over that chain: every [`PathPart::Id`] must be exactly that master, every [`PathPart::Global`] stands for between `min` and `max` masters of any kind, and the whole chain has to be accounted for.
+///
 #[inline(always)]
 pub fn validate_tag_path<T: EbmlSpecification<T> + EbmlTag<T> + Clone>(tag_id: u64, doc_path: impl Iterator<Item = (u64, EBMLSize, usize)>) -> bool {
-    let path = <T>::get_path_by_id(tag_id);
-    let mut path_marker = 0;
-    let mut global_counter = 0;
-    for item in doc_path {
-        let current_node_id = item.0;
+    let chain: Vec<u64> = doc_path.map(|item| item.0).collect();
+    path_matches(<T>::get_path_by_id(tag_id), &chain)
+}
 
-        if !item.1.is_known() && is_ended_by::<T>(current_node_id, tag_id) {
-            return true;
-        }
-
-        if path_marker >= path.len() {
-            return false;
-        }
-
-        match path[path_marker] {
-            PathPart::Id(id) => {
-                if id != current_node_id {
-                    return false;
-                }
-                path_marker += 1;
-            },
-            PathPart::Global((min, max)) => {
-                global_counter += 1;
-                if max.is_some() && global_counter > max.unwrap_or_default() {
-                    return false;
-                }
-                if path.len() > (path_marker + 1) && matches!(path[path_marker + 1], PathPart::Id(id) if id == current_node_id) {
-                    if min.is_some() && global_counter < min.unwrap_or_default() {
-                        return false;
-                    }
-                    path_marker += 2;
-                    global_counter = 0;
-                }
-            },
-        }
+fn path_matches(path: &[PathPart], chain: &[u64]) -> bool {
+    match path.split_first() {
+        None => chain.is_empty(),
+        Some((PathPart::Id(id), rest)) => chain.first() == Some(id) && path_matches(rest, &chain[1..]),
+        Some((PathPart::Global((min, max)), rest)) => {
+            let min = min.map_or(0, |min| usize::try_from(min).unwrap_or(usize::MAX));
+            let max = max.map_or(chain.len(), |max| usize::try_from(max).unwrap_or(usize::MAX).min(chain.len()));
+            (min..=max).any(|skipped| path_matches(rest, &chain[skipped..]))
+        },
     }
-
-    // Validate that we compared ALL parents in the path
-    path.len() == path_marker || 
-    // or that the last parent was a global whose minimum was met
-        ((path.len() - 1) == path_marker && matches!(path[path_marker], PathPart::Global((min, _)) if global_counter >= min.unwrap_or(0)))
-    
 }
